@@ -3,7 +3,7 @@ from __future__ import annotations
 
 import ast
 
-from ..astutil import attr_chain, call_method, short, src
+from ..astutil import attr_chain, call_method, short, src, ancestors
 from ..model import walk_local, AnalysisError
 from ..report import Ctx
 from ..engines import keykind, grid
@@ -95,6 +95,9 @@ def _check(ctx: Ctx) -> None:
     # --- NEAR: the candidates are the grid position at or below the event and the next one above, per step size
     near_rule(ctx, fi)
 
+    # --- POS / ZERO / OVERLAP: the three comparisons that make notes well-formed
+    compare_rules(ctx, fi)
+
     # --- KEEP
     loop = message_loop(fi.node)
     out = output_list_name(fi.node)
@@ -158,6 +161,67 @@ def _check(ctx: Ctx) -> None:
               construct="event list rewritten without a following canonical sort",
               message="self._messages is replaced and an exit is reachable without re-sorting it", file=fi.file,
               node=bad[0][1] if bad else fi.node)
+
+
+def compare_rules(ctx: Ctx, fi) -> None:
+    """POS: a note-off candidate is admitted iff it lies strictly after the note's quantised start; ZERO: a pair is scheduled
+    for removal iff end - start <= 0; OVERLAP: a note-on is accepted iff no earlier end is recorded or it does not start
+    before that end.  Each is recognised as a relation `E op 0` in normal form (mirror images accepted)."""
+    from ..linear import Normaliser, Sym, relation, same_relation
+    loop = message_loop(fi.node)
+    if loop is None:
+        return
+    nz = Normaliser()
+    # POS: inside the note-off branch, `valid.append(position)` under a test on position - start
+    pos_sites = []
+    for n in ast.walk(loop):
+        if isinstance(n, ast.For) and isinstance(n.target, ast.Name):
+            for c in ast.walk(n):
+                if isinstance(c, ast.Call) and call_method(c)[1] == "append" and c.args and isinstance(c.args[0], ast.Name) and c.args[0].id == n.target.id:
+                    g = next((a for a in ancestors(c) if isinstance(a, ast.If)), None)
+                    if g is not None and g in list(ast.walk(n)):
+                        pos_sites.append((n.target.id, g, c))
+    for var, g, c in pos_sites:
+        r = relation(g.test, nz)
+        inside_body = any(c is x for y in g.body for x in ast.walk(y))
+        if r is None:
+            ctx.undetermined("POS", f"{FN}: end-candidate filter", f"`{short(g.test)}` not a single comparison")
+            continue
+        d, op = r
+        others = [a for a in d.atoms() if a != var]
+        ok = len(others) == 1 and same_relation(r if inside_body else (d, {">": "<=", ">=": "<", "<": ">=", "<=": ">", "==": "!=", "!=": "=="}[op]),
+                                                   Sym.atom(var) - Sym.atom(others[0]), ">")
+        ctx.check(ok, "POS", f"{FN}: an end candidate is admitted iff it lies strictly after the note's start (`{short(g.test)}`)", function=FN,
+                  construct="note-off candidates are not restricted to positions strictly after the note's quantised start",
+                  message=f"`{short(g.test)}`: a candidate equal to (or before) the start gives a zero or negative length", file=fi.file, node=g)
+    # ZERO and OVERLAP
+    second = [n for n in fi.node.body if isinstance(n, ast.For) and n is not loop and n.lineno > loop.lineno]
+    for lp in second:
+        for g in [x for x in ast.walk(lp) if isinstance(x, ast.If)]:
+            if any(isinstance(c, ast.Call) and call_method(c)[1] in ("extend", "append") for y in g.body for c in ast.walk(y)) and ".time" in src(g.test):
+                r = relation(g.test, nz)
+                ok = False
+                if r is not None:
+                    d, op = r
+                    tatoms = [a for a in d.atoms() if a.endswith(".time")]
+                    oatoms = [a for a in d.atoms() if not a.endswith(".time")]
+                    if len(tatoms) == 1 and len(oatoms) == 1:
+                        ok = same_relation(r, Sym.atom(tatoms[0]) - Sym.atom(oatoms[0]), "<=") or same_relation(r, Sym.atom(tatoms[0]) - Sym.atom(oatoms[0]), "==")
+                ctx.check(ok, "ZERO", f"{FN}: a pair is removed iff its end does not lie after its start (`{short(g.test)}`)", function=FN,
+                          construct="collapsed-note removal does not test end - start <= 0",
+                          message=f"`{short(g.test)}`: zero-length notes would survive, or proper notes be removed", file=fi.file, node=g)
+    for g in [x for x in ast.walk(loop) if isinstance(x, ast.If) and isinstance(x.test, ast.BoolOp) and isinstance(x.test.op, ast.Or)]:
+        parts = g.test.values
+        notin = [v for v in parts if isinstance(v, ast.Compare) and isinstance(v.ops[0], ast.NotIn)]
+        rels = [relation(v, nz) for v in parts if relation(v, nz) is not None and not (isinstance(v, ast.Compare) and isinstance(v.ops[0], ast.NotIn))]
+        if len(notin) == 1 and len(rels) == 1:
+            d, op = rels[0]
+            tatoms = [a for a in d.atoms() if a.endswith(".time")]
+            oatoms = [a for a in d.atoms() if not a.endswith(".time")]
+            ok = len(tatoms) == 1 and len(oatoms) == 1 and oatoms[0].endswith("[1]") and same_relation(rels[0], Sym.atom(tatoms[0]) - Sym.atom(oatoms[0]), ">=")
+            ctx.check(ok, "OVERLAP", f"{FN}: a note-on is accepted iff it does not start before the previous end of its key (`{short(g.test, 80)}`)", function=FN,
+                      construct="overlap test is not `no previous note, or start >= previous end`",
+                      message=f"`{short(g.test, 100)}`", file=fi.file, node=g)
 
 
 def near_rule(ctx: Ctx, fi) -> None:
